@@ -12,8 +12,8 @@ import (
 	"reflect"
 	"time"
 
-	upgradetypes "cosmossdk.io/x/upgrade/types"
 	sdkmath "cosmossdk.io/math"
+	upgradetypes "cosmossdk.io/x/upgrade/types"
 	codectypes "github.com/cosmos/cosmos-sdk/codec/types"
 	sdk "github.com/cosmos/cosmos-sdk/types"
 	authtypes "github.com/cosmos/cosmos-sdk/x/auth/types"
